@@ -621,7 +621,15 @@ class Window(OperatorMixin):
 
     def std(self, ddof=1):
         """ Compute standard deviation of elements within window """
-        return self.var(ddof=ddof) ** 0.5
+        var = self.var(ddof=ddof)
+        if not self.with_state:
+            return var ** 0.5
+        # elements are (state, variance) pairs: keep the state, root the result
+        stream = var.stream.map(lambda pair: (pair[0], pair[1] ** 0.5))
+        example = var.example ** 0.5
+        if type(var) is Streaming:
+            return Streaming(stream, example, stream_type=var._stream_type)
+        return type(var)(stream, example)
 
     @property
     def size(self):
